@@ -21,6 +21,30 @@ def depends_on_input(t):
     return mentions(t, lambda x: x[0] in INPUT_HEADS)
 
 
+def affine_mismatch(t, pf, E):
+    """for every leaf of t that is  pf + a*input + b*E  (a, b rational constants, nothing else): returns (a, b) if b != -a, else None"""
+    from norm import Normalizer
+    from terms import leaves as _leaves
+    N = Normalizer()
+    x = ("arg", "a0")
+    for conds, leaf in _leaves(t):
+        try:
+            d = N.rat(leaf) - N.rat(pf)
+        except Exception:
+            continue
+        if not d.d.is_const() or d.d.const_value() == 0:
+            continue
+        n = d.n.scale(1 / d.d.const_value())
+        ke = ((N.atom_key(E), 1),)
+        kxs = [k for k in n.t if len(k) == 1 and k[0][1] == 1 and isinstance(k[0][0], tuple) and k[0][0][0] == "arg"]
+        if len(kxs) != 1 or set(n.t) - {kxs[0], ke}:
+            continue  # not affine in (input, evicted) alone: other rules look at it
+        a, b = n.t.get(kxs[0], 0), n.t.get(ke, 0)
+        if a != 0 and b != 0 and a + b != 0:
+            return (a, b)
+    return None
+
+
 def apply(F, S):
     tss, classes = typestate.all_structs(F)
     totals_seen = 0
@@ -132,6 +156,13 @@ def apply(F, S):
             for f, t in totals.items():
                 totals_seen += 1
                 if f in evicting:
+                    # a total that is updated by an affine form in (input, evicted slot) must take out exactly what it put in:
+                    # coefficient(evicted) = -coefficient(input).  `sum + old + x` depends on the evicted slot but never forgets it.
+                    wrong = affine_mismatch(t, ("pre", "self." + f), E)
+                    if wrong:
+                        S.bad("F2", "evicted-not-removed", "%s.%s" % (s, f), "%s: `%s` is updated by %s — the evicted slot enters with coefficient %s but the input with %s: what was added is not what is taken out, so old inputs keep influencing the state"
+                              % (lab, f, show(t)[:110], wrong[1], wrong[0]), loc(fn.span))
+                        continue
                     S.ok("F2", "%s.%s (via %s)" % (s, f, lab), evicted=show(E), steady_state_update=show(t)[:140])
                 else:
                     S.bad("F2", "total-never-evicts", "%s.%s" % (s, f), "%s: state `%s` accumulates the input (%s) but in steady state does not depend on the evicted slot %s: old inputs never leave it"
